@@ -107,6 +107,27 @@ def handleSeq (toks : List String) : String :=
       | _, _ => "bad-op"
   | _ => "bad-op"
 
+/-- three floats per requested date -/
+def parseTriples : Nat → List String → Option (List (Float × Float × Float))
+  | 0, [] => some []
+  | 0, _ => none
+  | n + 1, toks => do
+    let (fs, rest) ← takeFloats 3 toks
+    let more ← parseTriples n rest
+    match fs with
+    | [a, b, c] => pure ((a, b, c) :: more)
+    | _ => none
+
+/-- `suntab <n> <3n floats>` / `moontab …`: a tabulation over `n` dates, each given by the Julian centuries of
+(date − step, date, date + step); the states separated by `|` -/
+def handleTab (tab : List (Float × Float × Float) → List (List Float)) (n : String) (rest : List String) : String :=
+  match n.toNat? with
+  | none => "bad-op"
+  | some n =>
+    match parseTriples n rest with
+    | some args => if args.isEmpty then "bad-op" else joinWith " | " ((tab args).map fsToStr)
+    | none => "bad-op"
+
 /-- `spk <orbit|offset> <a> <b> <npairs> <c-t>… <6·npairs floats>`:
     orbit  = `jpl.get_orbit(a, date).copy(frame=b)`;
     offset = zero state vector in the frame of a, `.copy(frame=b)`.
@@ -143,6 +164,8 @@ def handle : List String → Option String
     match takeFloats 3 rest with
     | some ([tm, t0, tp], _) => fsToStr (Solar.moonState tm t0 tp)
     | _ => "bad-op"
+  | "suntab" :: n :: rest => some (handleTab Solar.sunTable n rest)
+  | "moontab" :: n :: rest => some (handleTab Solar.moonTable n rest)
   | _ => none
 
 end BeyondVerif.Drv.C18
